@@ -114,8 +114,8 @@ def sibling(rows, model):
             if other == "fixed":
                 if not decl["length"].strip().isdigit() or int(decl["length"]) < 1:
                     return None
-                if decl["type"] == "Constant":
-                    return None
+            elif decl["type"] == "Constant":
+                return None  # the width of a fixed Constant may exceed the constant; under delimited it is its exact length
             example = row[2]
             if example and F.expected(decl, fmt, example)[0] != F.ACCEPT:
                 row[2] = ""
@@ -137,7 +137,15 @@ def load(rows):
 def rewrite(rng, rows):
     rows = [list(r) for r in rows]
     applied = []
-    choice = rng.sample(["comments", "trailing", "case", "blanks", "permute"], rng.randint(1, 3))
+    choice = rng.sample(["comments", "trailing", "case", "blanks", "permute", "late-properties"], rng.randint(1, 3))
+    if "late-properties" in choice:
+        # reordered properties: every data format row but the Format row itself moves below the fields (above the checks)
+        first = next(i for i, r in enumerate(rows) if r[0] == "D")
+        moved = [r for i, r in enumerate(rows) if r[0] == "D" and i != first]
+        kept = [r for i, r in enumerate(rows) if not (r[0] == "D" and i != first)]
+        last_field = max(i for i, r in enumerate(kept) if r[0] == "F")
+        rows = kept[: last_field + 1] + moved + kept[last_field + 1 :]
+        applied.append("late-properties")
     if "permute" in choice:
         d_index = [i for i, r in enumerate(rows) if r[0] == "D"][1:]
         if len(d_index) >= 2:
@@ -250,7 +258,7 @@ def defects(rng, rows, model):
             yield "untokenizable-type", variant(i, setcell(5, bad)), i + 1, None
         ftype = rows[i][5]
         if kind != "fixed":
-            for bad in ("abc", "1...x", "1 2", "..."):
+            for bad in ("abc", "1...x", "1 2", "...", ",", "1,,5", ",1", "1,", "1...5...", "1::5", "...1...", "1......5"):
                 yield "malformed-length", variant(i, setcell(4, bad)), i + 1, None
             for bad in ("2.5", "0.5...1.5", "1e1", "1...2.0"):
                 # a length is a number of characters: fractions are malformed for every type
@@ -267,7 +275,7 @@ def defects(rng, rows, model):
                 yield "fixed-length-below-one:%s" % ftype, variant(i, setcell(4, bad)), i + 1, None
             for bad in ("2.5", "1.5", "1e1"):
                 yield "fractional-length:%s" % ftype, variant(i, setcell(4, bad)), i + 1, None
-        bad_rules = {"Integer": ["abc", "1...x", "5...1", "1.5...2"], "Decimal": ["x", "1...y", "'a'"], "Choice": ["a,,b", "a,", ",a", "a b"],
+        bad_rules = {"Integer": ["abc", "1...x", "5...1", "1.5...2", "1,,5", "1...5...", "1::5", ",1"], "Decimal": ["x", "1...y", "'a'", "1,,5", "1...5...", "1.5::2.5", "1_000...2_000", "1.0_1"], "Choice": ["a,,b", "a,", ",a", "a b"],
                      "Constant": ["a b", "a, b"]}.get(ftype, [])
         for bad in bad_rules:
             def m(r, bad=bad):
@@ -288,6 +296,19 @@ def defects(rng, rows, model):
             verdict = F.expected(decl, model.fmt, example)
             if verdict[0] == F.REJECT:
                 yield "example-rejected-by-own-field:%s" % ftype, variant(i, setcell(2, example)), i + 1, None
+    # an example has to be accepted by its own field as the complete CID declares it: here the data format row that makes
+    # the field refuse the example stands below the field
+    if not any(r[0] == "D" and r[1].lower() == "allowed characters" for r in rows):
+        for n, i in enumerate(f_index):
+            if rows[i][5] == "Text" and rows[i][4] == "" and kind != "fixed":
+                late = [list(r) for r in rows]
+                for j in f_index:
+                    late[j][2] = ""  # (only this field's example is at odds with the complete format)
+                late[i][2] = "caf\u00e9"
+                last_field = f_index[-1]
+                late = late[: last_field + 1] + [["D", "Allowed characters", "32...126"]] + late[last_field + 1 :]
+                yield "example-rejected-under-the-complete-format", late, i + 1, None
+                break
     yield "no-fields-at-all", [r for r in rows if r[0] == "D"], None, None
     # --- check rows
     first_f = f_index[0]
@@ -419,6 +440,10 @@ def run(ctx):
         for rule in ("%s >= 0 and %s <= 99" % (counted, counted), "%s < 5 or %s > 7 or %s == 6" % (counted, counted, counted), "%s - 3 < 99 and abs(%s) >= 0" % (counted, counted)):
             if not model.checks or rng.random() < 0.5:
                 check_accept(ctx, rows + [["C", "expression over the count", "DistinctCount", rule]], "distinctcount-expression")
+        # the always-empty filler column of the documentation (Constant, may be empty, no rule), in every format
+        last_field = max(i for i, r in enumerate(rows) if r[0] == "F")
+        filler = ["F", "filler_column", "", "X", "3" if model.kind == "fixed" else "", "Constant", ""]
+        check_accept(ctx, rows[: last_field + 1] + [filler] + rows[last_field + 1 :], "always-empty-constant")
         for _ in range(4):
             rewritten, applied = rewrite(rng, rows)
             check_accept(ctx, rewritten, "rewrite:" + "+".join(sorted(applied)), base_sig, rows)
